@@ -1183,6 +1183,14 @@ def realise(facts, goal, model, tries=400, seed=0):
                 continue
             for i, b in enumerate(raw):
                 fixed[(a.a[1].a[0].a[0], a.a[1].a[1].a[0] + i)] = b
+    # a propositional atom `buf[lo:hi] == literal` that the model makes true: those octets are the literal's
+    for a, v in (model or {}).items():
+        if a.k == "boolatom" and isinstance(v, int) and v >= 1 and a.a[0].k == "op" and a.a[0].a[0] == "==":
+            x_, y_ = a.a[0].a[1], a.a[0].a[2]
+            if y_.k == "const" and isinstance(y_.a[0], (bytes, bytearray)) and x_.k == "slice" and x_.a[0].k == "sym" and x_.a[1].k == "const" \
+                    and isinstance(x_.a[1].a[0], int) and x_.a[1].a[0] >= 0:
+                for i, b in enumerate(y_.a[0]):
+                    fixed[(x_.a[0].a[0], x_.a[1].a[0] + i)] = b
     palette = [0, 0, 0, 1, 2, 3, 4, 7, 8, 0x0F, 0x10, 0x11, 0x20, 0x21, 0x24, 0x40, 0x7F, 0x80, 0xC0, 0xF0, 0xFF]
 
     def attempt(k):
